@@ -1,11 +1,15 @@
 ------------------------------- MODULE T_XSem -------------------------------
 (* Trace validation of whole xargs runs against the composed specification   *)
 (* (XargsSem): {"in": {stdin, delim, n, L, s, x, r, init, cmdlen, script},   *)
-(* "obs": {argvs, exit}} - argvs as the recorder command received them.      *)
+(* "obs": {argvs, exit, stdout}} - argvs as the recorder command received   *)
+(* them, stdout: what xargs itself wrote (only without a command).           *)
 EXTENDS XargsSem, TraceLib
 
-InDomain(in, obs) == SemDomain(in)
-Conforms(in, obs) == "panic" \notin DOMAIN obs /\ SemOK(in, obs.argvs, obs.exit)
+InDomain(in, obs) == SemDomain(in) /\ (Flag(in, "echo") => EchoDomain(in))
+Conforms(in, obs) ==
+  /\ "panic" \notin DOMAIN obs
+  /\ IF Flag(in, "echo") THEN obs.argvs = <<>> /\ EchoOK(in, obs.stdout, obs.exit)
+     ELSE SemOK(in, obs.argvs, obs.exit) /\ obs.stdout = <<>>
 Describe(in) == [toks |-> Toks(in), outcomes |-> IF Toks(in).err THEN <<>> ELSE SetToSeq(B!RefOutcomes(BatchIn(in)))]
 INSTANCE TraceCheck
 =============================================================================
